@@ -76,6 +76,16 @@ def fill (tol : Rat) (oldT oldC full : List Rat) : Except Err (List Rat) :=
     | some first, some last => fillLoop tol oldT (padCoeff oldT oldC) first last 0 full
     | _, _ => .error .index
 
+/-- Variant of the padding selected from the working tree (`zeroLast = true`: repaired code, fixes/C14-2.patch:
+`elif len(old_coeffs) == len(old_tlist): old_coeffs = concatenate([old_coeffs[:-1], [0]])` — the last element of a
+full-length step coefficient has no effect). -/
+def normCoeff (zeroLast : Bool) (oldT oldC : List Rat) : List Rat :=
+  if zeroLast && oldC.length == oldT.length then oldC.dropLast ++ [0] else oldC
+
+/-- `_fill_coeff` (step branch) of the tree with the given padding variant; `fillV false = fill` -/
+def fillV (zeroLast : Bool) (tol : Rat) (oldT oldC full : List Rat) : Except Err (List Rat) :=
+  fill tol oldT (normCoeff zeroLast oldT oldC) full
+
 /-! ## `get_full_coeffs` (step_func) -/
 
 inductive Chan
@@ -121,6 +131,14 @@ def fullCoeffs (tol : Rat) (chans : List Chan) : Except Err (List Rat × List (L
         | .arr tl cs => fill tol tl cs T) chans with
     | .error e => .error e
     | .ok rows => .ok (T, rows)
+
+/-- `get_full_coeffs()` of the tree with the given padding variant -/
+def Chan.norm (zeroLast : Bool) : Chan → Chan
+  | .arr tl cs => .arr tl (normCoeff zeroLast tl cs)
+  | c => c
+
+def fullCoeffsV (zeroLast : Bool) (tol : Rat) (chans : List Chan) : Except Err (List Rat × List (List Rat)) :=
+  fullCoeffs tol (chans.map (Chan.norm zeroLast))
 
 /-- `run_analytically`: slice `n` has `dt = T[n+1] - T[n]` and the coefficient column `n` -/
 def slices : List Rat → List (List Rat) → List (Rat × List Rat)
@@ -180,6 +198,14 @@ def loadShape (rows cols : Nat) : List Nat := [rows, cols].filter (· ≠ 1)
 `none` when the table was squeezed (then `coeffs[i]` is a scalar or `data[:, 0]` raises) or `i` is out of range -/
 def readCoeffLen (inctime : Bool) (rows npulses i : Nat) : Option Nat :=
   match loadShape rows (if inctime then npulses + 1 else npulses) with
+  | [r, c] => if i < (if inctime then c - 1 else c) then some r else none
+  | _ => none
+
+/-- `np.loadtxt(..., ndmin=2)` (repaired code, fixes/C14-3.patch) keeps both dimensions -/
+def loadShapeV (ndmin2 : Bool) (rows cols : Nat) : List Nat := if ndmin2 then [rows, cols] else loadShape rows cols
+
+def readCoeffLenV (ndmin2 inctime : Bool) (rows npulses i : Nat) : Option Nat :=
+  match loadShapeV ndmin2 rows (if inctime then npulses + 1 else npulses) with
   | [r, c] => if i < (if inctime then c - 1 else c) then some r else none
   | _ => none
 
